@@ -57,20 +57,21 @@ def sfmt_jobs(tier):
     jobs = [
         J("sfmt.do_recursion", "h_do_recursion", 20),
         J("sfmt.gen_rand_all", "h_gen_rand_all", 630),
-        J("sfmt.gen_rand64", "h_gen_rand64", 630),
-        J("sfmt.gen_rand32", "h_gen_rand32", 630),
         J("sfmt.period_certification", "h_period_certification", 630),
         J("sfmt.init_gen_rand.safety", "h_init_gen_rand", 630),
     ]
-    if tier == "thorough":
-        jobs.append(J("sfmt.fill_array64", "h_fill_array64", 2700))
+    if tier == "quick":
+        jobs.append(J("sfmt.gen_rand64.refill", "h_gen_rand64", 630, defines=["LO=624"]))
+    else:
+        jobs += [J("sfmt.gen_rand64", "h_gen_rand64", 630), J("sfmt.gen_rand32", "h_gen_rand32", 630),
+                 J("sfmt.fill_array64", "h_fill_array64", 2700)]
     return jobs
 
 
 SFMT_DESCR = {
     "h_do_recursion": "forall a,b,c,d (16 words): do_recursion(r,a,b,c,d) == reference recursion, also in place (r==a)",
     "h_gen_rand_all": "forall state[624]: gen_rand_all: every new word i == rec(x[i],x[i+122],x[i+154],x[i+155]) of the SFMT sequence (=> new state == reference x[N..2N-1]); no out-of-bounds access; loops bounded",
-    "h_gen_rand64": "forall state[624], even idx in [0,624]: gen_rand64 returns stream words (idx,idx+1) little-endian, refills exactly when idx==624, idx'=idx+2",
+    "h_gen_rand64": "forall state[624], even idx in [LO,624] (quick: LO=624 = the refill case; thorough: LO=0): gen_rand64 returns stream words (idx,idx+1) little-endian, refills exactly when idx==624, leaves the state unchanged otherwise, idx'=idx+2",
     "h_gen_rand32": "forall state[624], idx in [0,624]: gen_rand32 returns stream word idx, refills exactly when idx==624, idx'=idx+1",
     "h_period_certification": "forall state[624]: period_certification == reference; afterwards parity inner product is odd",
     "h_init_gen_rand": "forall seed: init_gen_rand memory-safe, idx==N32, initialized==1 (values: z3 obligation)",
@@ -104,8 +105,24 @@ class Z3Jobs:
             r["wall_s"] = round(dt, 2); r["rss_mb"] = rss // 1024
             log("  [z3]   %-44s %-8s %6.1fs  (expect %s)" % (j["name"], r["result"], dt, j["expect"]))
             return j, r
+        # phase 1: search helpers and every query that has no helper; phase 2: parents whose helper did not already decide them
+        names = {j["name"] for j in self.jobs}
+        def helper_of(j):
+            for suf in (".p2", ".p24"):
+                if j["name"] + suf in names: return j["name"] + suf
+            return None
+        first = [j for j in self.jobs if helper_of(j) is None]
+        second = [j for j in self.jobs if helper_of(j) is not None]
         with cf.ThreadPoolExecutor(max_workers=K.NPROC) as ex:
-            return list(ex.map(one, self.jobs))
+            res = list(ex.map(one, first))
+            sat = {j["name"] for j, r in res if r.get("result") == "sat"}
+            todo = [j for j in second if helper_of(j) not in sat]
+            res += list(ex.map(one, todo))
+            for j in second:
+                if helper_of(j) in sat:
+                    log("  [z3]   %-44s decided by its helper query (sat)" % j["name"])
+                    res.append((j, dict(result="skipped-helper-sat", wall_s=0)))
+        return res
 
 
 # =============================================================================================== part (ii): Random / z3
@@ -223,6 +240,7 @@ def random_obligations(ctx, tier, mod_random, mod_sfmt):
     if not (1 <= len(paths) <= 8): raise Infra("getValue has %d paths" % len(paths))
     wcanon = z3.BitVec("w", 64)
     seen_terms = []
+    real_terms = []
     for pi, r in enumerate(paths):
         tag = "getValue.p%d" % pi
         fills = [e for e in r.log if e[0] == "fill_array64"]
@@ -259,6 +277,8 @@ def random_obligations(ctx, tier, mod_random, mod_sfmt):
         ZJ.add(tag + ".upper.p2", "getValue < max at w = 0xC000000000000000 (u=0.75) for all min<max in box [search for a high-probability counterexample]",
                box + [wcanon == 0xC000000000000000, z3.Not(hi_ok)], "unsat", dict(M, helper=True))
         ZJ.add(tag + ".upper.edge", "getValue < max for w >= 0xFFFFFFFFFFFFFC00 (to_res53 == 1.0)", box + [edge, z3.Not(hi_ok)], "unsat", dict(M, predicate=PRED_EDGE))
+        ZJ.add(tag + ".upper-weak", "getValue <= max (never beyond max) for all w < 0xFFFFFFFFFFFFFC00, min<max in box", box + [notedge, z3.Not(z3.fpLEQ(v, mx))], "unsat", dict(M, weak=True))
+        real_terms.append(v)
 
     # ---- getIntValue through the public entry point (virtual dispatch through the vtable written by the constructor)
     ust = generic()
@@ -287,8 +307,16 @@ def random_obligations(ctx, tier, mod_random, mod_sfmt):
             if ob[0] == "fpto-int-range":
                 _op, x, wbits = ob[2]
                 x = z3.substitute(x, (wv, wcanon))
-                ZJ.add(tag + ".conv", "(int) conversion of floor(value) is defined (value within int range) for all w < 0xFFFFFFFFFFFFFC00, integer min<max",
-                       ibox + [notedge, z3.Not(z3.And(z3.fpGT(x, z3.FPVal(-2.0 ** 31 - 1, F64)), z3.fpLT(x, two31)))], "unsat", dict(M, conv=True))
+                inr = lambda e: z3.And(z3.fpGT(e, z3.FPVal(-2.0 ** 31 - 1, F64)), z3.fpLT(e, two31))
+                fl = [t for t in real_terms if x.eq(z3.fpRoundToIntegral(z3.RTN(), t))]
+                if fl:
+                    # the converted value is floor(getValue): given min <= getValue <= max (obligations getValue.lower / .upper-weak)
+                    # the conversion is defined; prove the lemma for an arbitrary double y in [min,max]
+                    y = z3.FP("y", F64)
+                    ZJ.add(tag + ".conv", "(int) conversion of floor(getValue) is defined: forall y in [min,max], integer min<max in int range: -2^31-1 < floor(y) < 2^31 (uses getValue.lower and getValue.upper-weak)",
+                           ibox + [z3.fpGEQ(y, mn), z3.fpLEQ(y, mx), z3.Not(inr(z3.fpRoundToIntegral(z3.RTN(), y)))], "unsat", dict(M, conv=True))
+                else:
+                    ZJ.add(tag + ".conv", "(int) conversion of floor(value) is defined for all w < 0xFFFFFFFFFFFFFC00, integer min<max", ibox + [notedge, z3.Not(inr(x))], "unsat", dict(M, conv=True))
 
     # ---- to_res53 kernel (SFMT.h) from the SFMT wrapper's IR
     ex2 = Exec(mod_sfmt, {}, max_paths=4)
@@ -300,7 +328,6 @@ def random_obligations(ctx, tier, mod_random, mod_sfmt):
     ZJ.add("to_res53.range.edge", "to_res53(w) in [0,1) for w >= 0xFFFFFFFFFFFFFC00", [z3.UGE(wcanon, T_EDGE), z3.Not(in01)], "unsat", dict(kind="res53", predicate=PRED_EDGE))
     ZJ.add("to_res53.edge-exact", "to_res53(w) == 1.0 for all w >= 0xFFFFFFFFFFFFFC00 (the excluded set is exactly the set that rounds to 1.0)",
            [z3.UGE(wcanon, T_EDGE), z3.Not(z3.fpEQ(u, z3.FPVal(1.0, F64)))], "unsat", dict(kind="res53", helper=True))
-    ZJ.add("to_res53.monotone-grid", "to_res53(w) is a multiple of 2^-53 (53-bit resolution) for all w", [z3.Not(z3.fpEQ(z3.fpRoundToIntegral(RNE, z3.fpMul(RNE, u, z3.FPVal(2.0 ** 53, F64))), z3.fpMul(RNE, u, z3.FPVal(2.0 ** 53, F64))))], "unsat", dict(kind="res53", helper=True))
     ctx.functions.update(x for x in (ex.called | ex2.called))
     return ZJ, direct
 
@@ -466,6 +493,10 @@ def _main(tier, seed):
         M = j["meta"]
         if M.get("helper") and not j["name"].startswith("to_res53"):
             continue        # search queries, not obligations (their results feed the API replay)
+        hname = j["name"] + (".p2" if M.get("kind") == "real" else ".p24")
+        if r["result"] not in ("sat", "unsat") and hname in helpers:
+            # the helper query is this query plus one more constraint (w fixed, w < 0xFFFFFFFFFFFFFC00): its model is a model of this query
+            r = dict(r, result="sat", model=helpers[hname], via="helper " + hname)
         ctx.obligations += 1
         ctx.nontrivial.add((j["name"], j["obligation"]))
         ctx.samples.append("z3 %s: %s -> %s in %.1fs" % (j["name"], j["obligation"], r["result"], r.get("wall_s", 0)))
@@ -492,7 +523,6 @@ def _main(tier, seed):
                        min=repr(dbl(bmin)), max=repr(dbl(bmax)), w=hex(w))
             # public-API replay by seed search: candidates = helper model (high hit probability), the model itself, fixed textbook cases
             cands = []
-            hname = j["name"].replace(".upper", ".upper.p2") if M["kind"] == "real" else j["name"].replace(".range", ".range.p24")
             if hname in helpers: cands.append((helpers[hname]["min"], helpers[hname]["max"]))
             cands.append((bmin, bmax))
             api = None
